@@ -84,6 +84,12 @@ func newScanner(snapshot *KVSnapshot, startKey []byte, endKey []byte, batchSize 
 		reverse:      reverse,
 		nextEndKey:   endKey,
 	}
+	if reverse && len(endKey) > 0 && kv.CmpKey(startKey, endKey) >= 0 {
+		// Empty range [startKey, endKey): nothing to scan. Without this, a reverse scan whose bounds coincide with
+		// a region boundary asks the region on the left of endKey for keys >= its own end key (not in that region).
+		scanner.Close()
+		return scanner, nil
+	}
 	err := scanner.Next()
 	if tikverr.IsErrNotFound(err) {
 		return scanner, nil
